@@ -31,6 +31,7 @@ def project(trace):
     lines, snaps = ["reset"], []
     owner, started, gidx, nextg = {}, set(), {}, 0        # key -> global attempt; started attempts; task label -> global
     cstarted = False
+    queued = set()                                         # task labels currently queued on a semaphore
     entries = set()                                        # server keys currently in the real transports
     awaited = set()                                        # attempts handle_client's final asyncio.wait waits for
     i, n = 0, len(trace)
@@ -54,11 +55,12 @@ def project(trace):
             if r[1] == "H" and r[2] == "cd":
                 awaited = {owner[key] for key in entries}
         elif k == "ev":
-            cmds = []; j = i + 1; crashed = False
+            cmds = []; j = i + 1; crashed = False; creqs = []
             while j < n and trace[j][0] not in ("evend", "crash"):
                 c = trace[j]
                 if c[0] == "cmd": cmds.append(c)
                 elif c[0] == "tset" and c[2] != "c": entries.add(c[2])
+                elif c[0] == "creq" and c[1] in queued: creqs.append(c[1])   # close_connection's handler.cancel()
                 j += 1
             if j < n and trace[j][0] == "crash": crashed = True
             if crashed and cmds: cmds = cmds[:-1]             # the command that raised had no effect
@@ -69,8 +71,14 @@ def project(trace):
                     out.append(f"o{c[2]}:{ADDRID[c[3]]}")
                 elif c[1] == "hook": out.append("k")
             lines.append(f"a {tid(r[1])} ev {r[2]} {','.join(out) or '-'}")
+            for t in creqs: lines.append(f"a {tid(t)} creq")
             i = j
-        elif k in ("semwait", "semacq", "semcancel", "semrel"): lines.append(f"a {tid(r[1])} {k}")
+        elif k in ("semwait", "semacq", "semcancel", "semrel"):
+            lines.append(f"a {tid(r[1])} {k}")
+            if k == "semwait": queued.add(r[1])
+            elif k in ("semacq", "semcancel"): queued.discard(r[1])
+        elif k == "creq":
+            if r[1] in queued: lines.append(f"a {tid(r[1])} creq")     # Task.cancel() on a task queued for a slot
         elif k == "connret": lines.append(f"a {tid(r[1])} connret {r[2]}")
         elif k == "readret": lines.append(f"a {tid(r[1])} readret {r[2]}")
         elif k == "wclose":
@@ -103,20 +111,26 @@ class Check(PropertyCheck):
     design_ref = "§5 C09"
     level_text = ("Lean theorems (client_hooks_paired, connect_outcome_exactly_one, connected_then_disconnected_once, "
                   "at_most_five_per_address, no_transports_after_return, wait_counts_callbacks, "
-                  "final_wait_covers_transports) about a program-counter model of ConnectionHandler's tasks (handle_client, one "
+                  "final_wait_covers_transports, semaphore_accounts_balanced, at_most_n_per_address, "
+                  "waiters_are_tasks_of_the_address, cancelled_waiter_keeps_count) about a program-counter model of ConnectionHandler's tasks (handle_client, one "
                   "task per open_connection, the client connection handler, hook tasks) TOGETHER WITH an explicit small-step "
                   "model of the asyncio machinery they rely on: per-task done-callback lists in registration order "
-                  "(release_transport, asyncio.wait's completion callback) run only after the task finished, and "
-                  "asyncio.wait as a counter. Proved for EVERY schedule: any choice of the next runnable task action or "
+                  "(release_transport, asyncio.wait's completion callback) run only after the task finished, "
+                  "asyncio.wait as a counter, and asyncio.Semaphore transcribed from CPython 3.12 (counter per address, FIFO "
+                  "of waiters, acquire = take a slot when not locked else queue, release = increment and hand the slot to "
+                  "the first pending waiter, a cancelled queued waiter leaves the queue without touching the counter, a "
+                  "waiter cancelled after the hand-off gives the slot back). Proved for EVERY schedule: any choice of the next runnable task action or "
                   "callback, every await returning normally, failing or delivering a cancellation, any command list from "
                   "the layer (induction over the schedule, invariants). The model is tied to the real "
                   "ProxyConnectionHandler running on a virtual-time asyncio loop by trace inclusion: the schedule the real "
-                  "loop chose — every hook fired/returned, semaphore event, connect, read, server_event with its commands, "
-                  "writer.close, task end and every release_transport done-callback — is replayed in the compiled model, "
-                  "and model state = real state at every quiescent point.")
-    level_note = ("trusted: Lean kernel; ONE asyncio fact is still assumed, not modelled: Semaphore.acquire admits fewer than "
-                  "N holders (asyncio.Semaphore's waiter hand-off is not transcribed). The done-callback/asyncio.wait "
-                  "scheduler is explicit in the model; what it takes from asyncio is that a future's callbacks run after "
+                  "loop chose — every hook fired/returned, semaphore event, Task.cancel() on a queued task, connect, read, "
+                  "server_event with its commands, writer.close, task end and every release_transport done-callback — is "
+                  "replayed in the compiled model, and model state = real state at every quiescent point, including the "
+                  "real semaphores' free-slot count and queue length, which the model predicts.")
+    level_note = ("trusted: Lean kernel; no scheduling fact about asyncio is assumed any more: the semaphore, the "
+                  "done-callbacks and asyncio.wait are transcribed into the model and tied to the running interpreter's "
+                  "asyncio (3.12.1) by the replay (a different asyncio.Semaphore implementation would show up as a broken "
+                  "tie). What the done-callback/asyncio.wait part takes from asyncio is that a future's callbacks run after "
                   "completion in registration order — the completion callback of asyncio.wait is not observable from "
                   "outside and is placed in the replayed schedule right behind the observed release_transport callback. "
                   "handle_client itself is assumed not to be cancelled from outside; no_transports_after_return assumes the "
@@ -161,6 +175,13 @@ class Check(PropertyCheck):
              {"closed_c": "", "closed_s": "C$"}, {"closed_c": "Cc", "hookdone": "O7b", "start": "X"},
              {"closed_c": "Cc;C0;C1", "closed_s": "H$"}]
     BASES = [
+        # N+2 concurrent opens to ONE address: five get a slot, two queue for one; a cancellation of a queued one
+        # (injected at every position) must not free a slot
+        [["cli", "O0a;O1a;O2a;O3a;O4a;O5a;O6a"], ["conn", 0, "ok"], ["conn", 1, "ok"], ["conn", 2, "ok"], ["conn", 3, "ok"],
+         ["conn", 4, "ok"], ["cli", "C5"], ["conn", 6, "ok"], ["conn", 5, "ok"], ["seof", 0], ["conn", 6, "ok"], ["conn", 5, "ok"]],
+        # five open, one is closed while nobody is queued, then four more are requested: still at most five
+        [["cli", "O0a;O1a;O2a;O3a;O4a"], ["conn", 0, "ok"], ["conn", 1, "ok"], ["conn", 2, "ok"], ["conn", 3, "ok"], ["conn", 4, "ok"],
+         ["cli", "C0"], ["cli", "O5a;O6a;O7a;O0a"], ["conn", 5, "ok"], ["conn", 6, "ok"], ["conn", 7, "ok"], ["conn", 0, "ok"], ["seof", 1], ["conn", 6, "ok"]],
         [["cli", "O0a"], ["conn", 0, "ok"], ["sdata", 0, "Sc"], ["seof", 0]],
         [["cli", "O0a"], ["conn", 0, "refuse"], ["cli", "O0a"], ["conn", 0, "ok"], ["cli", "S0"], ["serr", 0]],
         [["cli", "O0a;O1a;O2a;O3a;O4a;O5a;O6a"], ["conn", 0, "ok"], ["conn", 1, "ok"], ["conn", 2, "refuse"], ["conn", 5, "ok"],
@@ -245,7 +266,7 @@ class Check(PropertyCheck):
         for r in obs["trace"]:
             if r[0] == "hook" and r[2] == "cc": ncc += 1
             elif r[0] == "hook" and r[2] == "cd": ncd += 1
-            elif r[0] == "snap": view.append(list(r[1:]) + [ncc, ncd])
+            elif r[0] == "snap": view.append(list(r[1:6]) + [ncc, ncd, r[6], r[5]])
         obs["snaps"] = view
         nattempts = sum(1 for l in lines for w in l.split()[-1:] if l.startswith("a ") and " ev " in l for c in w.split(",") if c.startswith("o"))
         per = [[0, 0, 0, 0] for _ in range(nattempts)]
@@ -307,8 +328,9 @@ class Check(PropertyCheck):
         return self._last["lines"]
 
     def model_obs(self, case, replies):
-        stuck = next((i for i, r in enumerate(replies[:-1]) if r not in ("ok",) and len(r.split()) != 10), None)
-        qs = [[int(x) for x in (r.split()[:5] + r.split()[6:8])] for r in replies[:-1] if len(r.split()) == 10]
+        stuck = next((i for i, r in enumerate(replies[:-1]) if r not in ("ok",) and len(r.split()) != 12), None)
+        # entries, open writers, client entry, client writer, holders, #cc, #cd, queued waiters, slots taken
+        qs = [[int(x) for x in (r.split()[:5] + r.split()[6:8] + r.split()[10:12])] for r in replies[:-1] if len(r.split()) == 12]
         qc = replies[-1]
         per = [] if qc in ("-",) else [[int(x) for x in c.split(",")[:4]] for c in qc.split(";")] if "," in qc else qc
         return {"stuck_at": stuck, "snaps": qs, "attempts": per}
